@@ -2,6 +2,7 @@
 package c14
 
 import (
+	"crypto/sha256"
 	"bytes"
 	"context"
 	"encoding/base64"
@@ -167,14 +168,20 @@ type rig struct {
 	store            *memstore.Store
 	sc               *scriptedCache
 	clock            *ctfex.Clock
-	faulted          bool
+	faulted          bool // some fault was injected at some point (reporting only)
 	addFault         bool
+	// transient faults: trigger positions in the call counters of storage Add / FindByKey and cache Get
+	addAt, getAt []int
+	// persistent damage: chain keys (hex of SHA-256) whose stored row was deleted or is corrupted on read
+	damaged      map[string]bool
+	cacheCorrupt bool
+	chainKeyOf   map[string]string // leaf_input -> chain key of the entry (submitted entries only)
 	want             map[string][][]byte // leaf_input -> acceptable reference extra_data values (two precertificates may share a TBS and differ in signature)
 	mu               sync.Mutex
 }
 
 func newRig(t *testing.T, c Case) *rig {
-	r := &rig{beD: reflog.New(1, 1), beI: reflog.New(1, 1), store: memstore.New(), clock: ctfex.NewClock(time.UnixMilli(1700000000123)), want: map[string][][]byte{}}
+	r := &rig{beD: reflog.New(1, 1), beI: reflog.New(1, 1), store: memstore.New(), clock: ctfex.NewClock(time.UnixMilli(1700000000123)), want: map[string][][]byte{}, damaged: map[string]bool{}, chainKeyOf: map[string]string{}}
 	key := keys.Pick("p256", 5)
 	var err error
 	r.direct, err = ctfex.New(ctfex.Opts{LogKey: key, Roots: world.Roots(), Backend: r.beD, Clock: r.clock})
@@ -257,6 +264,53 @@ func corruptChain(chain []byte, how string, pos int, other []byte) []byte {
 	return chain
 }
 
+// chainKey is the storage key of an issuance chain: SHA-256 of the DER SEQUENCE OF OCTET STRING of the
+// certificates after the leaf (computed with derx, independently of the service under test).
+func chainKey(full [][]byte) string {
+	// the service stores asn1.Marshal([]ct.ASN1Cert): SEQUENCE OF SEQUENCE { OCTET STRING }
+	var parts [][]byte
+	for _, c := range full[1:] {
+		parts = append(parts, derx.Seq(derx.Octets(c)))
+	}
+	sum := sha256.Sum256(derx.Seq(parts...))
+	return string(sum[:])
+}
+
+type counters struct{ add, get, cget int }
+
+func (r *rig) snap() counters {
+	r.sc.mu.Lock()
+	g := r.sc.gets
+	r.sc.mu.Unlock()
+	a, b := r.store.Calls()
+	return counters{add: a, get: b, cget: g}
+}
+
+func (c counters) with(g int) counters { c.cget = g; return c }
+
+// transientFired reports whether a scripted one-shot fault had its trigger position inside the window
+// of calls made between two snapshots.
+func (r *rig) transientFired(a, b counters) bool {
+	for _, at := range r.addAt {
+		if at >= a.add && at < b.add {
+			return true
+		}
+	}
+	for _, at := range r.getAt {
+		if at >= a.get && at < b.get {
+			return true
+		}
+	}
+	r.sc.mu.Lock()
+	defer r.sc.mu.Unlock()
+	for at := range r.sc.errAt {
+		if at >= a.cget && at < b.cget {
+			return true
+		}
+	}
+	return false
+}
+
 type entry struct{ leaf, extra []byte }
 
 func parseEntries(body []byte) ([]entry, error) {
@@ -274,7 +328,9 @@ func parseEntries(body []byte) ([]entry, error) {
 // compareRead issues the same read against both instances and judges the indirect answer.
 func (r *rig) compareRead(v *harness.Verdict, path, query string, isEAP bool) {
 	d := r.direct.Get(path, query)
+	before := r.snap()
 	i := r.indirect.Get(path, query)
+	after := r.snap()
 	if d.Status != 200 {
 		// request not servable at all (e.g. beyond the tree): the indirect instance must not succeed with data either
 		if i.Status == 200 {
@@ -283,8 +339,31 @@ func (r *rig) compareRead(v *harness.Verdict, path, query string, isEAP bool) {
 		return
 	}
 	if i.Status != 200 {
-		if !r.faulted {
-			v.Failf("indirect-refuses", "%s?%s: direct 200, indirect %d %q with no fault injected", path, query, i.Status, trunc(i.Body))
+		// an error answer is legitimate only while a fault is in effect for THIS request: a one-shot fault
+		// that fired during it, or persistent damage to the chain of one of the entries asked for
+		excuse := r.transientFired(before, after) || r.cacheCorrupt
+		if !excuse {
+			var de []entry
+			if isEAP {
+				var a ct.GetEntryAndProofResponse
+				if json.Unmarshal(d.Body, &a) == nil {
+					de = []entry{{a.LeafInput, a.ExtraData}}
+				}
+			} else {
+				de, _ = parseEntries(d.Body)
+			}
+			for _, e := range de {
+				if k, ok := r.chainKeyOf[string(e.leaf)]; ok && r.damaged[k] {
+					excuse = true
+				}
+			}
+		}
+		if !excuse {
+			sig := "indirect-refuses"
+			if r.faulted {
+				sig = "entry-lost-after-fault"
+			}
+			v.Failf(sig, "%s?%s: direct 200, indirect %d %q although no fault is in effect for this request (faults injected earlier in the case: %v)", path, query, i.Status, trunc(i.Body), r.faulted)
 		} else {
 			v.Class("fault-surfaced-as-error")
 		}
@@ -347,10 +426,12 @@ func (r *rig) submit(v *harness.Verdict, s *world.ChainSpec) {
 	}
 	r.clock.Add(time.Millisecond)
 	body := addBody(b.Submit)
+	before := r.snap()
 	ri := r.indirect.Post(path, body)
+	after := r.snap()
 	if ri.Status != 200 {
-		if !r.addFault {
-			v.Failf("indirect-submission-refused", "%s refused by the indirect instance with no storage fault: %d %q", path, ri.Status, trunc(ri.Body))
+		if !r.transientFired(before, after) {
+			v.Failf("indirect-submission-refused", "%s refused by the indirect instance although no fault fired during the request: %d %q", path, ri.Status, trunc(ri.Body))
 		} else {
 			v.Class("add-fault-surfaced")
 		}
@@ -367,7 +448,12 @@ func (r *rig) submit(v *harness.Verdict, s *world.ChainSpec) {
 	if err == nil {
 		r.mu.Lock()
 		r.want[string(lv)] = append(r.want[string(lv)], b.ExtraData())
+		k := chainKey(b.Full)
+		r.chainKeyOf[string(lv)] = k
 		r.mu.Unlock()
+		if _, ok := r.store.M[k]; !ok && len(r.damaged) == 0 && !r.addFault {
+			v.Failf("harness-chain-key", "the harness cannot predict the storage key of the issuance chain (store has %d rows)", r.store.Len())
+		}
 	}
 	if len(b.Full) == 2 {
 		v.Class("issuer-is-root")
@@ -429,8 +515,15 @@ func check(t *testing.T, c Case) (v harness.Verdict) {
 			v.Class("forgetful-cache")
 		case "fail-add":
 			at := r.store.AddCalls + s.A
+			r.addAt = append(r.addAt, at)
+			fired := r.addAt
 			r.store.FailAdd = func(n int) error {
-				if n == at {
+				for _, x := range fired {
+					if n == x {
+						return errors.New("injected storage failure (Add)")
+					}
+				}
+				if false {
 					return errors.New("injected storage failure (Add)")
 				}
 				return nil
@@ -439,8 +532,15 @@ func check(t *testing.T, c Case) (v harness.Verdict) {
 			v.NonTrivial = true
 		case "fail-get":
 			at := r.store.GetCalls + s.A
+			r.getAt = append(r.getAt, at)
+			firedG := r.getAt
 			r.store.FailGet = func(n int) error {
-				if n == at {
+				for _, x := range firedG {
+					if n == x {
+						return errors.New("injected storage failure (FindByKey)")
+					}
+				}
+				if false {
 					return errors.New("injected storage failure (FindByKey)")
 				}
 				return nil
@@ -450,6 +550,7 @@ func check(t *testing.T, c Case) (v harness.Verdict) {
 		case "delete":
 			if ks := r.sortedKeys(); len(ks) > 0 {
 				r.store.Delete(ks[s.A%len(ks)])
+				r.damaged[string(ks[s.A%len(ks)])] = true
 				r.faulted, r.addFault = true, true // a later identical chain is re-added; a cached hash may skip the Add
 				v.Class("row-deleted")
 				v.NonTrivial = true
@@ -465,6 +566,7 @@ func check(t *testing.T, c Case) (v harness.Verdict) {
 				other = r.store.M[string(ks[(s.A+1)%len(ks)])]
 			}
 			how, pos := s.How, s.B
+			r.damaged[target] = true
 			r.store.Corrupt = func(key, chain []byte) []byte {
 				if string(key) == target {
 					return corruptChain(chain, how, pos, other)
@@ -480,6 +582,7 @@ func check(t *testing.T, c Case) (v harness.Verdict) {
 			r.sc.mu.Lock()
 			r.sc.corrupt = func(key, chain []byte) []byte { return corruptChain(chain, how, pos, nil) }
 			r.sc.mu.Unlock()
+			r.cacheCorrupt = true
 			r.faulted, r.addFault = true, true
 			v.Class("cache-corrupt:" + how)
 			v.NonTrivial = true
